@@ -205,3 +205,7 @@ pub(crate) mod exitcode {
     /// Something was found in an unconfigured or misconfigured state.
     pub const CONFIG: i32 = 78;
 }
+
+#[cfg(all(test, pendulum_project_ntpd_rs_verif))]
+#[path = "/verif/harness/ntpd/hook_daemon__mod.rs"]
+mod verif_hook;
